@@ -16,11 +16,13 @@ var (
 		// neighbours that no float64 can tell apart
 		math.MaxInt64 - 1, math.MinInt64 + 1, 1 << 53, 1<<53 + 1, 1 << 60, 1<<60 + 1, -(1 << 60), -(1 << 60) - 1}
 	NaN2        = math.Float64frombits(0x7ff8000000000001 | 0xdead<<8) // NaN with another payload
-	FloatDomain = []float64{math.NaN(), NaN2, 0, math.Copysign(0, -1), 0.5, -0.5, 1, -1, 2, 2.5, -2.5, 3,
+	NaNS        = math.Float64frombits(0x7ff0000000000001)             // NaN with the quiet bit clear
+	NaNNeg      = math.Float64frombits(0xfff8000000000000)             // NaN with the sign bit set
+	FloatDomain = []float64{math.NaN(), NaN2, NaNS, NaNNeg, 0, math.Copysign(0, -1), 0.5, -0.5, 1, -1, 2, 2.5, -2.5, 3,
 		math.Inf(1), math.Inf(-1), 5e-324, math.MaxFloat64, 1e21, 1e22, 0.1, 100,
 		// exactly representable as float32 but not short in decimal
 		float64(float32(0.1)), float64(float32(1) / 3), math.MaxFloat32, float64(float32(16777217.5))}
-	StrDomain = []string{"", "a", "b", "ab", "A", "B", "aB", "abc", "ä", "\x00", "a b", "b%", "Ab", "c", "ba", "ıx", "ɐb", "aſ", "a\ufffdb", "null", "\ufeffx", " ",
+	StrDomain = []string{"", "a", "b", "ab", "A", "B", "aB", "abc", "ä", "\x00", "a b", "b%", "Ab", "c", "ba", "ıx", "ɐb", "aſ", "a\ufffdb", "a\xffb", "null", "\ufeffx", " ",
 		// strings of 8 bytes and more that differ at several of their first positions
 		"2021-01-15", "2020-12-24", "2021-10-05x", "abcdefgh", "abcdefgi", "bacdefgh", "abcdefg", "hgfedcba",
 		// longer than 64 bytes, equal on their first 64
